@@ -54,9 +54,33 @@ def cfg_pass(pool, tier, seed):
     return d
 
 
+def report_known(prop, verdict):
+    """Proof-region findings: replay the recorded witness; the KNOWN-FINDING line is printed only while it still fails."""
+    from vcheck import load_known
+    import contracts  # noqa
+    from rtc.fuzz import replay
+    out = []
+    for f in load_known().get('findings', []):
+        if f['property'] != prop or f.get('kind') != 'proof-region':
+            continue
+        w = f['witness']
+        try:
+            o = replay(w['qual'], w['args'], ignore_known=True)
+        except Exception as e:   # the witness no longer applies (signature changed ...)
+            out.append('%s: witness not replayable (%r)' % (f['id'], e))
+            continue
+        if o.kind == 'fail':
+            verdict.known.append('%s %s [region: %s] witness still fails: %s' % (f['id'], f['what'], f['region'], str(o.detail)[:160]))
+            out.append('%s still fails' % f['id'])
+        else:
+            out.append('%s witness no longer fails' % f['id'])
+    return out
+
+
 def cfg_property(explanation, extra_assumptions=(), level='other'):
     def run(prop, pool, verdict, tier, seed):
         e1 = run_e1(prop, pool, verdict, tier, seed)
+        known = report_known(prop, verdict)
         fz = run_fuzz(prop, pool, verdict, tier, seed)
         d = cfg_pass(pool, tier, seed)
         mine = [f for f in d['fails'] if f['prop'] == prop]
@@ -82,6 +106,7 @@ def cfg_property(explanation, extra_assumptions=(), level='other'):
         cov['samples'] = cov.get('samples', []) + [{'closed_cfg': s} for s in d['samples'][:3]]
         cov['bounded_pass_wall_s'] = d['wall']
         cov['bounded_pass_cached'] = d['cached']
+        cov['known_findings'] = known
         return level, cov, list(extra_assumptions) + e1['assumptions']
     return run
 
